@@ -460,4 +460,67 @@ def mergeIdxH : Nat → Nat → ArrPol → Heap → Id → Nat → List Id → O
 termination_by structural n => n
 end
 
+/-! ### the tree NewFrom / Merge build from a source value (merge.go normalize*, normalizeValue for embedded configs) -/
+
+/-- a source value: plain data, with configs that exist already embedded at any position -/
+inductive Src where
+  | nil
+  | prim (kind val : String)           -- bool, int, uint, float, string; dyn: a string holding an expression under VarExp
+  | reg (id : Id)                      -- an existing config (a *Config or Config value inside the source): it is copied
+  | arr (xs : List Src)
+  | map (es : List (String × Src))     -- keys: single path segments, each once
+  deriving Repr, Inhabited
+
+mutual
+/-- the node for a source value under the context it is created for; `cf`: fuel of the copies -/
+def buildH (cf : Nat) : Heap → Src → Option Id → String → Option (Heap × Id)
+  | h, .nil, p, f => some (h ++ [nilNode p f], h.length)
+  | h, .prim k v, p, f => some (h ++ [⟨p, f, .prim k v⟩], h.length)
+  | h, .reg id, p, f => cpy cf h id p f
+  | h, .arr xs, p, f =>
+    let me := h.length
+    match buildListH cf (h ++ [⟨p, f, .sub [] []⟩]) me 0 xs with
+    | none => none
+    | some (h1, ids) => some (setBody h1 me (.sub [] ids), me)
+  | h, .map es, p, f =>
+    let me := h.length
+    match buildEntriesH cf (h ++ [⟨p, f, .sub [] []⟩]) me es with
+    | none => none
+    | some (h1, d) => some (setBody h1 me (.sub d []), me)
+/-- the elements of a list source, each under the index it has -/
+def buildListH (cf : Nat) : Heap → Id → Nat → List Src → Option (Heap × List Id)
+  | h, _, _, [] => some (h, [])
+  | h, me, i, x :: r =>
+    match buildH cf h x (some me) (idxName i) with
+    | none => none
+    | some (h1, c) =>
+      match buildListH cf h1 me (i + 1) r with
+      | none => none
+      | some (h2, cs) => some (h2, c :: cs)
+/-- the entries of a map source, each under its key -/
+def buildEntriesH (cf : Nat) : Heap → Id → List (String × Src) → Option (Heap × List (String × Id))
+  | h, _, [] => some (h, [])
+  | h, me, (k, x) :: r =>
+    match buildH cf h x (some me) k with
+    | none => none
+    | some (h1, c) =>
+      match buildEntriesH cf h1 me r with
+      | none => none
+      | some (h2, d) => some (h2, (k, c) :: d)
+end
+
+/-- Merge(src): a config given as the source is merged as it is, any other value is normalized first -/
+def mergeSrcH (n cf : Nat) (pol : ArrPol) (h : Heap) (to : Id) : Src → Option Heap
+  | .reg frm => mergeH n cf pol h to frm
+  | s =>
+    match buildH cf h s none "" with
+    | some (h1, frm) => mergeH n cf pol h1 to frm
+    | none => none
+
+/-- NewFrom(src): `New()` followed by Merge -/
+def newFromH (n cf : Nat) (pol : ArrPol) (h : Heap) (src : Src) : Option (Heap × Id) :=
+  match mergeSrcH n cf pol (h ++ [⟨none, "", .sub [] []⟩]) h.length src with
+  | some h' => some (h', h.length)
+  | none => none
+
 end Ucfg.Forest
